@@ -219,7 +219,14 @@ func (vm *VM) Run(program *Program, env interface{}) (out interface{}, err error
 			a := vm.pop()
 			min := toInt(a)
 			max := toInt(b)
-			size := max - min + 1
+			size := 0
+			if max >= min {
+				size = max - min + 1
+				if size <= 0 || vm.memory+size < vm.memory {
+					// The number of elements does not fit into an int.
+					panic("memory budget exceeded")
+				}
+			}
 			if vm.memory+size >= vm.limit {
 				panic("memory budget exceeded")
 			}
